@@ -97,8 +97,15 @@ Proof.
   destruct (q_update s); reflexivity.
 Qed.
 Lemma validate_on_forallb : forall s item ts,
-  validate_on s item ts = forallb (fun t => mem t (available s item)) ts.
-Proof. intros. unfold validate_on. apply (filter_nil_forallb _ (fun t => mem t (available s item))). Qed.
+  validate_on s item ts = forallb (fun t => mem t (available s item) || tref_eqb t None) ts.
+Proof.
+  intros. unfold validate_on. fold (available s item).
+  rewrite <- (filter_nil_forallb _ (fun t => mem t (available s item) || tref_eqb t None)).
+  assert (E : forall l, filter (fun t => negb (mem t (available s item)) && negb (tref_eqb t None)) l
+                      = filter (fun t => negb (mem t (available s item) || tref_eqb t None)) l).
+  { induction l as [|a l IH]; cbn; auto. rewrite negb_orb, IH. reflexivity. }
+  now rewrite E.
+Qed.
 
 (* the set of fields: deduplication by rendered key *)
 Lemma dedup_in : forall l seen f, In f (dedup_fields seen l) -> In f l.
@@ -158,26 +165,20 @@ Proof.
 Qed.
 
 Lemma join_on_exact : forall s item crit,
-  (is_none (q_update s) || negb (existsb (fun r => is_none r) (crit_all_tables crit))) = true ->
-  keys_coherent (crit_nodes crit) = true ->
-  validate_on s item (crit_field_tables crit) = negb (names_foreign_table s item crit).
+  validate_on s item (crit_all_tables crit) = negb (names_foreign_table s item crit).
 Proof.
-  intros s item crit Hu Hk.
-  rewrite validate_on_forallb. unfold crit_field_tables, names_foreign_table, crit_all_tables in *.
-  rewrite dedup_forallb by now apply keys_coherent_coherent.
+  intros s item crit.
+  rewrite validate_on_forallb. unfold names_foreign_table.
   apply forallb_negb_existsb_in. intros [x|] Hin.
-  - rewrite available_some. now rewrite negb_involutive.
-  - rewrite available_none. cbn.
-    apply orb_prop in Hu. destruct Hu as [Hu|Hu]; auto.
-    exfalso. apply negb_true_iff in Hu. apply Bool.not_true_iff_false in Hu. apply Hu.
-    apply existsb_exists. exists None. auto.
+  - rewrite available_some. cbn. now rewrite orb_false_r, negb_involutive.
+  - cbn. now rewrite orb_true_r.
 Qed.
 
 Lemma on_field_valid : forall s item f0 r, q_from s = f0 :: r -> validate_on s item [Some f0; Some item] = true.
 Proof.
-  intros s item f0 r Hf. rewrite validate_on_forallb. cbn.
+  intros s item f0 r Hf. rewrite validate_on_forallb. cbn [forallb].
   rewrite !available_some. unfold join_source. rewrite Hf. cbn. rewrite !tbl_eqb_refl. cbn.
-  now rewrite orb_true_r.
+  now rewrite !orb_true_r.
 Qed.
 
 (* ------------------------------------------------------------------------------------------ *)
@@ -449,8 +450,7 @@ Proof.
   - (* rollup *) destruct s; unf; cbn. destruct mysql, n, q_mysql_rollup, q_groupbys; fin.
   - (* join *)
     destruct h as [[crit|]|n|n|].
-    + cbn in Hfr. apply andb_prop in Hfr. destruct Hfr as [Hu Hk].
-      unf. cbn. rewrite hd_if. cbn. rewrite (join_on_exact s item crit Hu Hk).
+    + unf. cbn. rewrite hd_if. cbn. rewrite (join_on_exact s item crit).
       destruct (names_foreign_table s item crit); cbn; split; intro H; try discriminate; try tauto.
       * injection H as <-. auto.
       * destruct H as [_ <-]. auto.
@@ -491,6 +491,7 @@ Proof.
     unf. cbn. cbn in Hfr. destruct v; try discriminate; cbn.
     + destruct percent; cbn; [destruct (Z.leb 0 z && Z.leb z 100)|]; fin.
     + destruct percent; cbn; [destruct (Z.leb 0 z && Z.leb z 100)|]; fin.
+    + destruct percent; fin.
     + destruct percent; fin.
     + destruct percent, b; fin.
   - (* render *)
